@@ -116,6 +116,15 @@ class SimEnv:
                 self.n += 1
                 q = SimQueue(env.sched, name, maxsize)
                 env.queues[name] = q
+                if name == "workQ":
+                    # the stop-order loop of `__exit__` gives up after a time-out once every listed worker has an exit code —
+                    # also while retired, unlisted workers are still busy in end() (model: exitPut on a full queue)
+                    def all_listed_exited():
+                        try:
+                            return env.pool is not None and all(p.exitcode is not None for p in env.pool.procs)
+                        except Exception:  # noqa
+                            return False
+                    q.timeout_useful = all_listed_exited
                 return q
 
             def __enter__(self):
